@@ -117,15 +117,18 @@ def mapRaw (v : J) (p : String) (f : J → J) : J :=
   | some x => v.set p (f x)
   | none => v
 
+/-- what `stripHiddenRecipients` does to one `object` element: typed values lose bto/bcc -/
+def stripElem (F : TFacts) (j : J) : J :=
+  match elemOf F j with
+  | .emb v => stripOne F v
+  | _ => j
+
 /-- `stripHiddenRecipients(activity)`: bto/bcc off the activity and off each typed `object` element -/
 def stripHiddenRecipients (F : TFacts) (a : J) : J :=
   let a := clear (clear a "bto") "bcc"
   match prop F a "object" with
   | none => a
-  | some _ => mapRaw a "object" fun j =>
-      match elemOf F j with
-      | .emb v => stripOne F v
-      | _ => j
+  | some _ => mapRaw a "object" (stripElem F)
 
 mutual
 /-- `clearSensitiveFields(obj)`: bto/bcc removed, recursively through typed `object` values -/
